@@ -149,6 +149,18 @@ package quotaresource
 //@ iface QuotaResourceI.Allowed
 //@   modifies now
 
+// A fixed-window quota below another quota (an internal limit under a concurrency quota): whatever its own bookkeeping says
+// about the request, the release is handed on to the parent - the parent's slot was taken on the way in and is given back
+// here, whether the transaction ends with a response, a drop or a proxy error.
+//@ func (*fixedWindow).Dec
+//@   prop C02
+//@   requires[world] worldOK()
+//@   requires[self] allocated(fw) && fw != nil
+//@   allocates quota, map
+//@   modifies heap, gParentGiven, now
+//@   ensures[hands-the-release-on-to-its-parent] fw.parent != nil && result == nil ==> gParentGiven[APIStream.GetID()] == old(gParentGiven[APIStream.GetID()]) + 1
+//@   ensures[nobody-elses-release] forall(r, string, r != APIStream.GetID() ==> gParentGiven[r] == old(gParentGiven[r]))
+
 //@ ghost func csMS(cs *concurrentStrategy) *lunar_context.memoryState[int64] = cs.sharedContext.(*lunar_context.memoryState[int64])
 //@ ghost func csSet(cs *concurrentStrategy) []string = setOf(csMS(cs), cs.concurrentSetKey)
 //@ ghost func csCard(cs *concurrentStrategy) int = cardOf(csMS(cs), cs.concurrentSetKey)
